@@ -51,6 +51,10 @@ func init() {
 
 // workerMain dispatches crash-isolated child workers (C13, C14, C15).
 func workerMain(args []string) {
+	if len(args) > 0 && args[0] == "c01" {
+		c01.Worker(args[1:])
+		return
+	}
 	if len(args) > 0 && args[0] == "c13" {
 		c13.Worker(args[1:])
 		return
